@@ -119,6 +119,30 @@ def standin_estimates(tier, seed):
                 samples.append(dict(kind=kind, ages={k_: v_ for k_, v_ in age_lists.items()}))
         if violations:
             break
+        # "for any parameters": the same model object, after estimates were already asked, with its parameters replaced by hand
+        new_par = {}
+        for k_, v_ in model.parameters.items():
+            t_ = torch.as_tensor(v_).clone().float()
+            if k_.endswith("_std") or k_ == "noise_std":
+                new_par[k_] = t_
+            elif k_ == "tau_mean":
+                new_par[k_] = t_ + 3.0
+            else:
+                new_par[k_] = t_ + torch.as_tensor(rng.normal(0.25, 0.1, tuple(t_.shape)), dtype=torch.float32)
+        with quiet():
+            model.load_parameters(new_par)
+            est = model.estimate(age_lists, ips)
+        evals += 1
+        distinct.add((kind, str(kw), "parameters replaced"))
+        for sid, ages in age_lists.items():
+            got = np.asarray(est[sid], dtype=float)
+            want = closed_form(model, kind, raw[sid], ages)
+            if not np.allclose(got, want, rtol=2e-4, atol=2e-5):
+                violations.append(dict(key=f"{kind} {kw}: after the model's parameters were replaced, estimate does not follow the closed form of the NEW parameters",
+                                       ages=ages, got=got.tolist(), want=want.tolist()))
+                break
+        if violations:
+            break
     return dict(evaluations=evals, distinct_nontrivial=len(distinct),
                 rule="one evaluation = one estimate() call (3 individuals, unsorted / repeated / extrapolated ages) compared with a "
                      "numpy implementation of the documented formula; distinct = (model kind, hyper-parameters, repetition)",
